@@ -74,6 +74,10 @@ def build_pool(seed):
     for k, c in enumerate(nets):
         pool[f'net{k}'] = netgen.impl_network(c)
         pool[f'netcase{k}'] = c
+    # a source-free network (operations that special-case "nothing to deactivate" must not hand out or edit their input)
+    passive = netgen.random_network(rng, max_nodes=4, max_branches=6, kinds=['R', 'G', 'Z', 'Y', 'R'])
+    pool['net3'] = netgen.impl_network(passive)
+    pool['netcase3'] = passive
     els = [b.element for b in pool['net0'].branches] + [b.element for b in pool['net1'].branches]
     pool['keep0'] = rng.sample(els, min(2, len(els)))
     pool['keep1'] = []
@@ -94,6 +98,7 @@ def build_pool(seed):
                      {'type': 'admittance', 'id': 'Y', 'N1': '1', 'N2': '0', 'Y': {'real': 0.5, 'imag': -0.25}},
                      {'type': 'current_source', 'id': 'I', 'N1': '0', 'N2': '1', 'I': {'real': 0.0, 'imag': 1.0}}]
     pool['doc0'] = {'a': 1 + 2j, 'n': {'b': [1, 2.5, {'z': -3j}], 'c': {'d': 4 - 1j}}, 'l': [[{'q': 1j}], 'x']}
+    pool['flat0'] = {'a': 1 + 2j, 'b': 3.5, 'c': -4j, 'name': 'x'}          # flat dictionary with complex leaves
     pool['polar0'] = {'abs': 2.0, 'phase': 30.0}
     pool['text0'] = '{"a": {"real": 1.0, "imag": 2.0}, "l": [1, {"z": {"abs": 2.0, "phase": 0.5}}, [{"w": {"real": 0.0, "imag": -1.0}}]]}'
     pool['wlist0'] = [0.0, 1.0, 50.0]
@@ -172,6 +177,10 @@ def run_op(pool, op):
             net = pool[args[0]]
             ls = net.node_labels
             return fp(na.open_circuit_impedance(net, ls[0], ls[-1]))
+        if name == 'isc':
+            net = pool[args[0]]
+            ls = net.node_labels
+            return fp(bpa.short_circuit_current(net, ls[0], ls[-1]))
         if name == 'transformer':
             net = pool[args[1]]
             f = getattr(trf, args[0])
@@ -240,8 +249,8 @@ def run_op(pool, op):
 
 def all_ops():
     ops = []
-    for n in ('net0', 'net1', 'net2'):
-        ops += [['solve', n], ['ocv', n], ['oci', n]]
+    for n in ('net0', 'net1', 'net2', 'net3'):
+        ops += [['solve', n], ['ocv', n], ['oci', n], ['isc', n]]
         for t in ('switch_ground_node', 'remove_element', 'remove_open_circuit_elements'):
             ops.append(['transformer', t, n, 'default'])
         for t in ('remove_short_circuit_elements', 'short_circuitify_voltage_sources', 'open_circuitify_current_sources',
@@ -249,7 +258,7 @@ def all_ops():
             for k in ('keep0', 'keep1', 'default'):
                 ops.append(['transformer', t, n, k])
     ops += [['load_network', 'desc0'], ['to_complex', 'polar0', True], ['to_complex', 'polar0', False],
-            ['serialize', 'doc0', 'json'], ['serialize', 'doc0', 'yaml'], ['deserialize', 'text0'], ['roundtrip', 'doc0', 'json'],
+            ['serialize', 'doc0', 'json'], ['serialize', 'doc0', 'yaml'], ['serialize', 'flat0', 'json'], ['roundtrip', 'flat0', 'yaml'], ['deserialize', 'text0'], ['roundtrip', 'doc0', 'json'],
             ['roundtrip', 'doc0', 'yaml']]
     for c in ('circ0', 'circ1', 'circ2'):
         ops += [['transform', c], ['transform_default', c], ['frequency_components', c], ['dc', c], ['complex', c, 0.0, True],
